@@ -1,10 +1,12 @@
 pub mod c03;
+pub mod c05;
 
 use crate::engine::Run;
 
 pub fn dispatch(run: &mut Run) -> bool {
   match run.id.as_str() {
     "C03" => c03::run(run),
+    "C05" => c05::run(run),
     _ => return false,
   }
   true
